@@ -379,6 +379,41 @@ fn record(ops: &[Op]) -> Option<Rec<F>> {
     .flatten()
 }
 
+/// Per executed operation of a BigUint program, the calls of the real decomposition chip
+/// (`trace::LogDecomp`) in emission order: `A<k>` assign_less_than_pow2(·, k), `C<k>`
+/// assert_less_than_pow2(·, k), `D<k>/<s>` decompose_fixed_limb_size(·, k, s), `S<k>`
+/// assign_many_small(·, k); `-` when the operation calls none; `P` / `E` when the program stops.
+pub fn big_trace(ops: &[Op]) -> Vec<String> {
+    let circuit = BigCircuit { ops: ops.to_vec(), outcome: RefCell::new(Outcome::default()) };
+    let _ = catch(|| {
+        let mut cs = ConstraintSystem::<F>::default();
+        let config = BigCircuit::configure(&mut cs);
+        let mut rec = Rec::<F>::default();
+        let constants = cs.constants().clone();
+        let _ = SimpleFloorPlanner::synthesize(&mut rec, &circuit, config, constants);
+    });
+    let events = crate::trace::take_events();
+    let outcome = circuit.outcome.borrow().clone();
+    let done = outcome.outs.len();
+    let mut per_op: Vec<Vec<String>> = vec![vec![]; done];
+    for e in &events {
+        if e.op < done {
+            per_op[e.op].push(match e.kind {
+                'D' => format!("D{}/{}", e.bits, e.limb_size),
+                k => format!("{k}{}", e.bits),
+            });
+        }
+    }
+    let mut v: Vec<String> = per_op.into_iter().map(|t| if t.is_empty() { "-".to_string() } else { t.join(",") }).collect();
+    if let Some(st) = &outcome.stopped {
+        v.push(st.clone());
+    }
+    if v.is_empty() {
+        v.push("-".into());
+    }
+    v
+}
+
 fn hex(b: &BigUint) -> String {
     format!("0x{}", b.to_str_radix(16))
 }
@@ -508,6 +543,52 @@ pub fn gen_cases(ctx: &Ctx) -> Vec<Case> {
         // value exceeding its declared width
         push("in-too-wide", vec![fop!("in", hex(&(BigUint::one() << w)), w)]);
     }
+    // width-asymmetric operand pairs (limb counts 1 vs 2, 2 vs 3, 1 vs 11), both orders, through
+    // EVERY binary operation (the two `extend` branches of `add`, `resize` inside assert_equal /
+    // is_equal / geq / select, the row/column roles in `mul`, q/r widths in `div_rem`)
+    for &(wa, wb) in &[(96u32, 97u32), (90, 192), (192, 193), (150, 288), (96, 1056), (1, 1000)] {
+        for t in 0..(if quick { 2 } else { 4 }) {
+            let (a, b) = match t {
+                0 => ((BigUint::one() << wa) - BigUint::one(), (BigUint::one() << wb) - BigUint::one()),
+                1 => (rng.gen_biguint(wa as u64), (BigUint::one() << (wb - 1)) + rng.gen_biguint(wb as u64 - 1)),
+                2 => (BigUint::one(), BigUint::one() << (wb - 1)),
+                _ => (rng.gen_biguint(wa as u64), rng.gen_biguint(wb as u64)),
+            };
+            for swap in [false, true] {
+                let (x, wx, y, wy) = if swap { (&b, wb, &a, wa) } else { (&a, wa, &b, wb) };
+                let mut ops = vec![
+                    fop!("in", hex(x), wx),
+                    fop!("in", hex(y), wy),
+                    fop!("add", 0, 1),
+                    fop!("mul", 0, 1),
+                    fop!("lt", 0, 1),
+                    fop!("eq", 0, 1),
+                    fop!("neq", 0, 1),
+                    fop!("inbit", (t % 2)),
+                    fop!("select", 7, 0, 1),
+                    fop!("assertneq", 0, 1),
+                    fop!("sub", 2, 1),    // (x + y) - y, operands of 2..12 vs 1..11 limbs
+                    fop!("asserteq", 10, 0),
+                    fop!("sub", 2, 0),    // (x + y) - x
+                    fop!("asserteq", 1, 12),
+                ];
+                if wa.max(wb) <= 300 || t == 0 {
+                    ops.push(fop!("div", 0, 1));
+                    ops.push(fop!("rem", 0, 1));
+                    ops.push(fop!("rem", 3, 0));
+                }
+                // the selected number is used afterwards (under-approximated size bounds of the
+                // result make the honest witness of these fail)
+                ops.push(fop!("mul", 8, 8));
+                ops.push(fop!("add", 8, 8));
+                push("asym", ops);
+                push("asym-sub", vec![fop!("in", hex(x), wx), fop!("in", hex(y), wy), fop!("sub", 0, 1)]);
+                if wa.max(wb) <= 300 && t < 2 {
+                    push("asym-modexp", vec![fop!("in", hex(x), wx), fop!("in", hex(&(y | &BigUint::one())), wy), fop!("modexp", 0, 3, 1), fop!("modexp", 1, 2, 0)]);
+                }
+            }
+        }
+    }
     // chains: repeated additions / products without explicit normalisation requests
     for &w in &[64u32, 96, 200, 700] {
         let mut ops = vec![fop!("in", hex(&((BigUint::one() << w) - BigUint::one())), w)];
@@ -609,31 +690,13 @@ pub fn run(ctx: &mut Ctx) {
         }
         ctx.case(&format!("big:{}", case.kind), true, &format!("big ; {prog}"), &format!("{} => {}", outs.join(" | "), verdict));
         ctx.count(&format!("big-verdict:{verdict}"));
-        // range checks of `assign_bounded` as emitted: bit length of every limb of every executed
-        // `in` (assign_biguint), read back from the real decomposition chip
-        if case.ops.iter().any(|o| o.name == "in") {
-            let done = run.outcome.outs.len();
-            let circuit = BigCircuit { ops: case.ops.clone(), outcome: RefCell::new(Outcome::default()) };
-            let _ = catch(|| {
-                let mut cs = ConstraintSystem::<F>::default();
-                let config = BigCircuit::configure(&mut cs);
-                let mut rec = Rec::<F>::default();
-                let constants = cs.constants().clone();
-                let _ = SimpleFloorPlanner::synthesize(&mut rec, &circuit, config, constants);
-            });
-            let events = crate::trace::take_events();
-            let toks: Vec<String> = case
-                .ops
-                .iter()
-                .enumerate()
-                .filter(|(i, o)| *i < done && o.name == "in")
-                .map(|(i, _)| {
-                    let bits: Vec<String> =
-                        events.iter().filter(|e| e.op == i && e.kind == 'A').map(|e| e.bits.to_string()).collect();
-                    format!("{i}:{}", if bits.is_empty() { "-".to_string() } else { bits.join(",") })
-                })
-                .collect();
-            ctx.case("bigrc", true, &format!("bigrc ; {prog}"), &if toks.is_empty() { "-".to_string() } else { toks.join(" | ") });
+        // range checks as emitted by EVERY operation (assign_bounded of `in` and of the internal
+        // witnesses of sub / div_rem, the carries and limbs of every `normalize`, the comparisons of
+        // `geq`, the decompositions of the bit / byte conversions): per executed operation, the calls
+        // of the real decomposition chip in order, with the bit length enforced
+        {
+            let t = big_trace(&case.ops);
+            ctx.case("bigrc", true, &format!("bigrc ; {prog}"), &t.join(" | "));
         }
         let structural_reject = matches!(case.kind.as_str(), "pi-wrong-bits" | "in-too-wide");
         if r.sat && !structural_reject {
@@ -705,4 +768,7 @@ pub fn single(prog: &str) {
         println!("  op {i} [{} {}] -> {o}", ops[i].name, ops[i].args.join(" "));
     }
     println!("stopped: {:?} {:?}", run.outcome.stopped, run.outcome.error);
+    for (i, t) in big_trace(&ops).iter().enumerate() {
+        println!("  trace {i}: {t}");
+    }
 }
